@@ -349,6 +349,17 @@ func leanStrList(name, doc string, xs []string) string {
 	return fmt.Sprintf("/-- %s -/\ndef %s : List String := [%s]\n\n", doc, name, strings.Join(q, ", "))
 }
 
+// generators: each produces one Lean file under lean/Varlink/Extracted/. Further files of this
+// package (extract/*.go) register theirs in init().
+type generator struct {
+	file string
+	gen  func(repo string) string
+}
+
+var generators []generator
+
+const hdr = "-- GENERATED by /verif/extract from /repo's working tree on every run. Do not edit.\n"
+
 func main() {
 	repo := flag.String("repo", "/repo", "repository root")
 	out := flag.String("out", "", "output directory for the generated Lean files")
@@ -358,8 +369,17 @@ func main() {
 		os.Exit(2)
 	}
 	os.MkdirAll(*out, 0o755)
-	hdr := "-- GENERATED by /verif/extract from /repo's working tree on every run. Do not edit.\n"
+	for _, g := range generators {
+		writeIfChanged(filepath.Join(*out, g.file), g.gen(*repo))
+	}
+}
 
+func init() {
+	generators = append(generators, generator{"Wire.lean", genWire}, generator{"Ctxio.lean", genCtxio})
+}
+
+func genWire(repoDir string) string {
+	repo := &repoDir
 	// Wire.lean
 	svc := parse(filepath.Join(*repo, "varlink/service.go"))
 	con := parse(filepath.Join(*repo, "varlink/connection.go"))
@@ -416,7 +436,11 @@ func main() {
 	}
 	w.WriteString(leanStrList("stdErrorNamesDispatched", "string literals of DispatchError's switch", caseNames))
 	w.WriteString("end Varlink.Extracted\n")
-	writeIfChanged(filepath.Join(*out, "Wire.lean"), w.String())
+	return w.String()
+}
+
+func genCtxio(repoDir string) string {
+	repo := &repoDir
 
 	// Ctxio.lean
 	cx := parse(filepath.Join(*repo, "varlink/internal/ctxio/conn.go"))
@@ -428,5 +452,5 @@ func main() {
 		c.WriteString(leanStrList("ctxio"+m+"CancelArm", "operations of the `case <-ctx.Done()` arm of "+m+", in order", cancelArm(cx, m)))
 	}
 	c.WriteString("end Varlink.Extracted\n")
-	writeIfChanged(filepath.Join(*out, "Ctxio.lean"), c.String())
+	return c.String()
 }
